@@ -628,6 +628,23 @@ func (e *Engine) verifyShard(fn *ssa.Function, fc *FuncContract, opts VerifyOpts
 			x.oblig(x.curFnName+"/assigns", "frame", fc.Props, fn.Pos(), "assigns "+strings.Join(fc.Assigns, ", "))
 		}
 	})
+	if len(fc.Reads) > 0 && shard <= 0 {
+		props := fc.ReadsProps
+		if len(props) == 0 {
+			props = fc.Props
+		}
+		got := e.fieldsRead(fn)
+		for _, item := range fc.Reads {
+			ob := x.oblig(x.curFnName+"/reads("+item+")", "reads-frame", props, fn.Pos(), "the value of "+item+" is read by this function or a same-package function reachable from it (static check on the SSA, back end: dataflow)")
+			ob.Instances++
+			if got[item] {
+				ob.Unsat++
+				ob.Engines["ssa-dataflow"]++
+			} else {
+				ob.Failures = append(ob.Failures, &Failure{Status: "static", Trace: []string{item + " is never loaded"}})
+			}
+		}
+	}
 	if fc.OrderFree && shard <= 0 {
 		props := fc.OrderFreeProps
 		if len(props) == 0 {
